@@ -155,6 +155,55 @@ def _negated(e):
     return None
 
 
+def _enclosure(nm, t):
+    """rational enclosure of f(c) for a numeric argument c (A12: mpmath interval arithmetic)"""
+    try:
+        if nm == "rpow":
+            args = [num_val(z3.simplify(t.arg(0))) if is_num_val(z3.simplify(t.arg(0))) else None,
+                    num_val(z3.simplify(t.arg(1))) if is_num_val(z3.simplify(t.arg(1))) else None]
+            if None in args or args[0] <= 0:
+                return None
+        else:
+            a = z3.simplify(t.arg(0))
+            if not is_num_val(a):
+                return None
+            args = [num_val(a)]
+        import mpmath
+        from mpmath import iv
+        iv.dps = 40
+        xs = [iv.mpf(x.numerator) / iv.mpf(x.denominator) for x in args]
+        if nm == "exp":
+            r = iv.exp(xs[0])
+        elif nm == "log":
+            if args[0] <= 0:
+                return None
+            r = iv.log(xs[0])
+        elif nm == "sqrt":
+            if args[0] < 0:
+                return None
+            r = iv.sqrt(xs[0])
+        elif nm == "sin":
+            r = iv.sin(xs[0])
+        elif nm == "cos":
+            r = iv.cos(xs[0])
+        elif nm == "tan":
+            r = iv.tan(xs[0])
+        elif nm == "rpow":
+            r = iv.exp(xs[1] * iv.log(xs[0]))
+        else:
+            return None
+        a_, b_ = Fraction(mpmath.nstr(mpmath.mpf(r.a), 30)), Fraction(mpmath.nstr(mpmath.mpf(r.b), 30))
+        import math
+        mag = max(abs(a_), abs(b_), Fraction(1, 10 ** 30))
+        digits = 16 - int(math.floor(math.log10(float(mag)))) - 1
+        scale = Fraction(10) ** digits
+        lo = Fraction(math.floor(a_ * scale) - 1) / scale
+        hi = Fraction(math.ceil(b_ * scale) + 1) / scale
+        return lo, hi
+    except Exception:
+        return None
+
+
 PI_LO = Fraction("3.14159265358979")
 PI_HI = Fraction("3.14159265358980")
 E_LO = Fraction("2.718281828459045")
@@ -192,6 +241,9 @@ def axioms_for(formulas, rounds=2, pair_limit=12, level=2):
                     uniq.append(t)
             for t in uniq:
                 a = t.arg(0)
+                enc = _enclosure(nm, t)
+                if enc is not None:
+                    add(z3.And(t >= rv(enc[0]), t <= rv(enc[1])), 0)
                 if nm == "sqrt":
                     add(z3.Implies(a >= 0, z3.And(t >= 0, t * t == a)), 0)
                     add(z3.Implies(a > 0, t > 0))
@@ -212,6 +264,10 @@ def axioms_for(formulas, rounds=2, pair_limit=12, level=2):
                     add(z3.Implies(z3.And(a > 0, a < 1), t < 0))
                     add(z3.Implies(a == 1, t == 0))
                     add(z3.Implies(a > 0, t <= a - 1))
+                    if "euler_e" in acc:
+                        add(z3.Implies(a * EULER >= 1, t >= -1))
+                        add(z3.Implies(a <= EULER, t <= 1))
+                        add(z3.Implies(a == EULER, t == 1))
                 elif nm in ("sin", "cos"):
                     s, c = _F1["sin"](a), _F1["cos"](a)
                     add(s * s + c * c == 1, 0)
@@ -271,6 +327,12 @@ def axioms_for(formulas, rounds=2, pair_limit=12, level=2):
                     add(z3.Implies(z3.And(x > 0, x <= 1, y >= 0), t <= 1))
                     add(z3.Implies(y == 0, t == 1))
                     add(z3.Implies(y == 1, t == x))
+                    add(z3.Implies(z3.And(x >= 1, y >= 0, y <= 1), t <= x))
+                    add(z3.Implies(z3.And(x > 0, x <= 1, y >= 0, y <= 1), t >= x))
+                    add(z3.Implies(z3.And(x > 0, x <= 1, y <= 0, y >= -1), z3.And(t >= 1, t * x <= 1)))
+                    add(z3.Implies(z3.And(x >= 1, y <= 0, y >= -1), z3.And(t <= 1, t * x >= 1)))
+                    add(z3.Implies(z3.And(x > 0, x <= 1, y >= 1), t <= x))
+                    add(z3.Implies(z3.And(x >= 1, y >= 1), t >= x))
                     add(z3.Implies(x == 1, t == 1))
                     add(z3.Implies(z3.And(x > 0), _F1["log"](t) == y * _F1["log"](x)))
                 elif nm == "floor_r":
